@@ -273,9 +273,9 @@ func scenario(p params) e1lib.Scenario {
 			})
 		})
 
-		callDone := make(chan struct{})
+		callDone := make(chan struct{}, 2)
 		rt.Go("caller", func() {
-			defer rt.Close("h:callDone", callDone)
+			defer rt.Send("h:callDone", callDone, struct{}{})
 			switch p.api {
 			case "GetBlock":
 				blk, err := client.GetBlock(reqF.point())
@@ -303,50 +303,58 @@ func scenario(p params) e1lib.Scenario {
 			}
 		})
 
-		// the application: waits for its call; every timeout involved (batch start 5 s, block
-		// 60 s, muxer segment read 120 s) is far below 300 s
-		returned := false
-		s := rt.NewSel("main:wait", false)
-		rt.SelRecvCase(s, callDone)
-		rt.SelRecvCase(s, vtime.After(300*time.Second))
-		if s.Choose() == 0 {
-			returned = true
-		} else {
-			rt.Log("call still blocked after 300s")
-		}
-		rt.Close("main:connClose", connClose) // Connection.Close()
-		rt.Recv("main:connClosed", connClosed)
-		if !returned {
-			s := rt.NewSel("main:wait2", false)
-			rt.SelRecvCase(s, callDone)
-			rt.SelRecvCase(s, vtime.After(100*time.Second))
-			if s.Choose() == 1 {
-				// last resort of an application: Stop() on the client object itself
-				rt.Log("call still blocked 100s after the connection was shut down")
-				rt.Go("stopper", func() {
-					client.Stop()
-					rt.Log("client.Stop returned")
-				})
-				s := rt.NewSel("main:wait3", false)
-				rt.SelRecvCase(s, callDone)
-				rt.SelRecvCase(s, vtime.After(100*time.Second))
-				if s.Choose() == 1 {
-					rt.Log("hang")
-					return
-				}
-				rt.Log("call returned only after client.Stop")
-				return
-			}
-			rt.Log("call returned only after the connection was shut down")
-		}
-		rt.Recv("main:protoDone", client.DoneChan())
-		rt.Log("end")
+		finish(client, 1, callDone, connClose, connClosed)
 	}
 
 	check := func(r *rt.Result) []rt.Finding {
 		return oracle(p, r)
 	}
 	return e1lib.Scenario{Name: p.name(), Body: body, Check: check, Cfg: rt.Config{Horizon: 30 * time.Minute}}
+}
+
+// finish is the application: it waits for its n calls; every timeout involved (batch start
+// 5 s, block 60 s, muxer segment read 120 s) is far below 300 s. Then it closes the
+// connection; calls that are still blocked get 100 s more, then client.Stop() and 100 s more.
+func finish(client *blockfetch.Client, n int, callDone chan struct{}, connClose, connClosed chan struct{}) {
+	returned := 0
+	waitCalls := func(pos string, d time.Duration) bool {
+		t := vtime.After(d)
+		for returned < n {
+			s := rt.NewSel(pos, false)
+			rt.SelRecvCase(s, callDone)
+			rt.SelRecvCase(s, t)
+			if s.Choose() == 1 {
+				return false
+			}
+			returned++
+		}
+		return true
+	}
+	inTime := waitCalls("main:wait", 300*time.Second)
+	if !inTime {
+		rt.Log("call still blocked after 300s")
+	}
+	rt.Close("main:connClose", connClose) // Connection.Close()
+	rt.Recv("main:connClosed", connClosed)
+	if !inTime {
+		if !waitCalls("main:wait2", 100*time.Second) {
+			// last resort of an application: Stop() on the client object itself
+			rt.Log("call still blocked 100s after the connection was shut down")
+			rt.Go("stopper", func() {
+				client.Stop()
+				rt.Log("client.Stop returned")
+			})
+			if !waitCalls("main:wait3", 100*time.Second) {
+				rt.Log("hang")
+				return
+			}
+			rt.Log("call returned only after client.Stop")
+			return
+		}
+		rt.Log("call returned only after the connection was shut down")
+	}
+	rt.Recv("main:protoDone", client.DoneChan())
+	rt.Log("end")
 }
 
 func logGetBlock(tag string, blk ledger.Block, err error) {
@@ -494,6 +502,225 @@ func oracle(p params, r *rt.Result) []rt.Finding {
 	return nil
 }
 
+// ---- two caller goroutines -------------------------------------------------------------------
+
+// call of a concurrent scenario: "G<f>" = GetBlock(fixture f), "R" = GetBlockRange(byron..shelley)
+type cparams struct {
+	calls [2]string
+	// gated: the second caller is started by the first block callback of the range (call 0 must be
+	// "R"); the server sends StartBatch + first block, waits until the second caller is about to
+	// call, and only then sends the rest of the batch
+	gated bool
+}
+
+func (p cparams) name() string {
+	n := "2callers|" + p.calls[0] + " || " + p.calls[1]
+	if p.gated {
+		n += "|second-call-during-batch"
+	}
+	return n
+}
+
+func concurrent(p cparams) e1lib.Scenario {
+	fb, fs := fixtures['b'], fixtures['s']
+	reqOf := func(call string) []byte {
+		if call == "R" {
+			return space.A(space.U(msgRequestRange), pointNode(fb), pointNode(fs)).Encode()
+		}
+		f := fixtures[call[1]]
+		return space.A(space.U(msgRequestRange), pointNode(f), pointNode(f)).Encode()
+	}
+	answerOf := func(call string) string {
+		if call == "R" {
+			if p.gated {
+				return "SbPsD" // P = pause until the second caller is about to call
+			}
+			return "SbsD"
+		}
+		return "S" + call[1:] + "D"
+	}
+	body := func() {
+		a, b := rt.ConnPair("client", "server")
+		m := muxer.New(a)
+		errs := make(chan error, 10)
+		batchDone := make(chan struct{}, 8)
+		firstBlock := make(chan struct{}, 8)
+		gate := make(chan struct{})
+		cfg, err := blockfetch.NewConfig(
+			blockfetch.WithBlockFunc(func(_ blockfetch.CallbackContext, typ uint, blk ledger.Block) error {
+				rt.Log("cb block %d %s", typ, s2lib.Sum(blk.Cbor()))
+				rt.Send("h:firstBlock", firstBlock, struct{}{})
+				return nil
+			}),
+			blockfetch.WithBatchDoneFunc(func(blockfetch.CallbackContext) error {
+				rt.Log("cb done")
+				rt.Send("h:batchDone", batchDone, struct{}{})
+				return nil
+			}),
+		)
+		if err != nil {
+			panic(err)
+		}
+		client := blockfetch.NewClient(protocol.ProtocolOptions{
+			ConnectionId: connection.ConnectionId{LocalAddr: a.LocalAddr(), RemoteAddr: a.RemoteAddr()},
+			Muxer:        m, ErrorChan: errs, Mode: protocol.ProtocolModeNodeToNode, Role: protocol.ProtocolRoleClient,
+		}, &cfg)
+		client.Start()
+		m.SetDiffusionMode(muxer.DiffusionModeInitiator)
+		m.Start()
+		connClose := make(chan struct{})
+		connClosed := make(chan struct{})
+		rt.Go("owner", func() {
+			s := rt.NewSel("owner:wait", false)
+			rt.SelRecvCase(s, connClose)
+			rt.SelRecvCase(s, errs)
+			rt.SelRecvCase(s, m.ErrorChan())
+			switch s.Choose() {
+			case 0:
+				rt.Log("conn closed by application")
+			case 1:
+				rt.Log("conn error protocol: %v", rt.SelVal(s, errs))
+			case 2:
+				if e, ok := rt.SelVal2(s, m.ErrorChan()); ok {
+					rt.Log("conn error muxer: %v", e)
+				}
+			}
+			m.Stop()
+			for range rt.Range("owner:muxdrain", m.ErrorChan()) {
+			}
+			rt.Close("owner:closed", connClosed)
+		})
+		// the server answers every request conformingly, by its content
+		rt.Go("peer", func() {
+			s2lib.WireReader(b, nil, func(id uint16, msg []byte) {
+				script := ""
+				for _, c := range p.calls {
+					if bytes.Equal(msg, reqOf(c)) {
+						script = answerOf(c)
+						rt.Log("wire request %s", c)
+						break
+					}
+				}
+				if id != protoBlockFetch || script == "" {
+					rt.Log("wire unexpected message: %d %x", id, msg)
+					return
+				}
+				for i := 0; i < len(script); i++ {
+					if script[i] == 'P' {
+						rt.Recv("peer:gate", gate)
+						continue
+					}
+					b.Write(s2lib.Segment(protoBlockFetch, true, letterBytes(script[i])))
+				}
+			})
+		})
+		callDone := make(chan struct{}, 2)
+		for ci, call := range p.calls {
+			ci, call := ci, call
+			rt.Go(fmt.Sprintf("caller%d", ci), func() {
+				defer rt.Send("h:callDone", callDone, struct{}{})
+				if p.gated && ci == 1 {
+					rt.Recv("caller1:firstBlock", firstBlock)
+					rt.Close("caller1:gate", gate)
+				}
+				tag := fmt.Sprintf("c%d", ci)
+				if call == "R" {
+					if err := client.GetBlockRange(fb.point(), fs.point()); err != nil {
+						rt.Log("%s ret err %v", tag, err)
+						return
+					}
+					rt.Log("%s ret ok", tag)
+					s := rt.NewSel("caller:batch", false)
+					rt.SelRecvCase(s, batchDone)
+					rt.SelRecvCase(s, connClosed)
+					if s.Choose() == 0 {
+						rt.Log("%s completed", tag)
+					} else {
+						rt.Log("%s aborted by connection shutdown", tag)
+					}
+					return
+				}
+				blk, err := client.GetBlock(fixtures[call[1]].point())
+				logGetBlock(tag+" ret", blk, err)
+			})
+		}
+		finish(client, 2, callDone, connClose, connClosed)
+	}
+	check := func(r *rt.Result) []rt.Finding {
+		logs := strings.Join(r.Logs, " | ")
+		fail := func(key, what string) []rt.Finding {
+			return []rt.Finding{{Key: key, What: what + " :: " + logs}}
+		}
+		var cbs []string
+		nDone, doneAt, lastCbAt := 0, -1, -1
+		ret := map[string]string{}
+		completed, hang, ended := false, false, false
+		for i, l := range r.Logs {
+			switch {
+			case strings.HasPrefix(l, "cb block "):
+				cbs = append(cbs, l[len("cb block "):])
+				lastCbAt = i
+			case l == "cb done":
+				nDone++
+				doneAt = i
+			case strings.HasPrefix(l, "c0 ret "), strings.HasPrefix(l, "c1 ret "):
+				ret[l[:2]] = l[7:]
+			case strings.HasSuffix(l, " completed"):
+				completed = true
+			case l == "hang":
+				hang = true
+			case l == "end":
+				ended = true
+			case strings.HasPrefix(l, "wire unexpected"):
+				return fail("wrong-request-on-the-wire", l)
+			case strings.HasPrefix(l, "call returned only after"):
+				return fail("hang-until-"+strings.ReplaceAll(strings.TrimPrefix(l, "call returned only after "), " ", "-"), l)
+			}
+		}
+		if hang {
+			return fail("hang", "a call never returned (blocked 300 s, 100 s more after the connection was shut down, 100 s more after client.Stop()): "+strings.Join(r.Verdict.Stuck, "; "))
+		}
+		if r.Verdict.Kind == "panic" {
+			return fail("panic:"+strings.SplitN(r.Verdict.Detail, "\n", 2)[0], r.Verdict.Detail)
+		}
+		// every GetBlock gets the block it asked for (conforming server, nothing closes, no timeout)
+		for ci, call := range p.calls {
+			tag := fmt.Sprintf("c%d", ci)
+			if call == "R" {
+				continue
+			}
+			f := fixtures[call[1]]
+			want := fmt.Sprintf("block %s hash %x", f.sum, f.hash)
+			if got, ok := ret[tag]; ok && got != want {
+				if strings.HasPrefix(got, "block ") {
+					return fail("getblock:wrong-block-returned", fmt.Sprintf("%s %s returned %s, want %s", tag, call, got, want))
+				}
+				return fail("getblock:matching-block-not-returned", fmt.Sprintf("%s %s returned %s, want %s", tag, call, got, want))
+			}
+		}
+		if r.Verdict.Kind != "ok" || !ended {
+			return fail("verdict:"+r.Verdict.Kind, r.Verdict.Detail+" "+strings.Join(r.Verdict.Stuck, "; "))
+		}
+		for ci, call := range p.calls {
+			if call != "R" {
+				continue
+			}
+			served := []string{fmt.Sprintf("%d %s", fb.typ, fb.sum), fmt.Sprintf("%d %s", fs.typ, fs.sum)}
+			if ret[fmt.Sprintf("c%d", ci)] != "ok" {
+				return fail("range:conforming-batch-refused", "GetBlockRange returned "+ret[fmt.Sprintf("c%d", ci)])
+			}
+			if strings.Join(cbs, ";") != strings.Join(served, ";") || nDone != 1 || !completed || lastCbAt > doneAt {
+				return fail("range:blocks-not-delivered", fmt.Sprintf("callbacks %v done=%d completed=%v, served %v", cbs, nDone, completed, served))
+			}
+		}
+		if p.calls[0] != "R" && p.calls[1] != "R" && (len(cbs) > 0 || nDone > 0) {
+			return fail("getblock:block-delivered-to-range-callback", fmt.Sprintf("callbacks %v done=%d although no range was requested", cbs, nDone))
+		}
+		return nil
+	}
+	return e1lib.Scenario{Name: p.name(), Body: body, Check: check, Cfg: rt.Config{Horizon: 30 * time.Minute}}
+}
+
 func TestC23(t *testing.T) {
 	e1lib.Main(t, "C23", func(thorough bool) []e1lib.Scenario {
 		var ps []params
@@ -548,6 +775,22 @@ func TestC23(t *testing.T) {
 			}
 			scs = append(scs, s)
 		}
+		// two caller goroutines on one client: a GetBlock issued while a range batch is streaming,
+		// the same without the pause, and two GetBlock calls racing
+		for _, cp := range []cparams{
+			{calls: [2]string{"R", "Gb"}, gated: true},
+			{calls: [2]string{"R", "Gs"}, gated: true},
+			{calls: [2]string{"R", "Gb"}},
+			{calls: [2]string{"Gb", "R"}},
+			{calls: [2]string{"Gb", "Gs"}},
+		} {
+			s := concurrent(cp)
+			s.MinB, s.MaxB, s.Budget = 1, 1, 60*time.Second
+			if thorough {
+				s.MinB, s.MaxB, s.Budget = 2, 2, 15*time.Minute
+			}
+			scs = append(scs, s)
+		}
 		if thorough {
 			// four conforming / closing scenarios once more, as far into bound 3 as 4 minutes allow
 			// (nothing is claimed for them beyond what the bound-2 scenarios above claim)
@@ -559,6 +802,14 @@ func TestC23(t *testing.T) {
 				s.Name += "|deep"
 				s.MinB, s.MaxB, s.Budget = 0, 3, 4*time.Minute
 				scs = append(scs, s)
+			}
+		}
+		if v := os.Getenv("C23_MAXB"); v != "" {
+			// debugging aid (used with VERIF_ONLY): override the deviation bound
+			var b int
+			fmt.Sscan(v, &b)
+			for i := range scs {
+				scs[i].MaxB, scs[i].Budget = b, 30*time.Minute
 			}
 		}
 		return scs
